@@ -181,6 +181,13 @@ def r15_4(ctx):
     r06_7(ctx)
 
 
+@rule("R15.7", "C15", "what is sequenced is emitted: BRANCH and REPEAT reference every effect they were built from, whatever the condition is", min_instances=30)
+def r15_7(ctx):
+    from .c05 import branch_emits_both_arms
+
+    branch_emits_both_arms(ctx)
+
+
 @rule("R15.5", "C15", "a node is never replaced by an unrelated operand of the same name (its statements would vanish from the instruction)", min_instances=6)
 def r15_5(ctx):
     from .c11 import name_collision_checks
